@@ -370,10 +370,19 @@ AXIOM_ALLOW_PREFIX = ("Uint63.", "PrimInt63.", "Uint63Axioms.", "CarryType.", "S
 def print_assumptions(modname, names, tag):
     """returns dict name -> list of axiom names (or ['<error>...'])"""
     path = os.path.join(GEN, "assum_%s.v" % tag)
+    combined = len(names) > 12
     with open(path, "w") as fh:
         fh.write("Require Import PP.Props.%s.\n" % modname)
-        for nm in names:
-            fh.write('Goal True. idtac "@@BEGIN %s". Abort.\nPrint Assumptions %s.\nGoal True. idtac "@@END". Abort.\n' % (nm, nm))
+        if combined:
+            # one traversal for the whole family: the union of the assumptions of all theorems
+            # (a conjunction-free way to mention them all: a record of their proofs)
+            for nm in names:
+                fh.write("Check %s.\n" % nm)
+            fh.write("Definition all_theorems_ := (%s).\n" % ", ".join("@" + nm for nm in names))
+            fh.write('Goal True. idtac "@@BEGIN ALL". Abort.\nPrint Assumptions all_theorems_.\nGoal True. idtac "@@END". Abort.\n')
+        else:
+            for nm in names:
+                fh.write('Goal True. idtac "@@BEGIN %s". Abort.\nPrint Assumptions %s.\nGoal True. idtac "@@END". Abort.\n' % (nm, nm))
     rc, out, err = coqc_file(os.path.relpath(path, COQ), timeout=600)
     res = {}
     if rc != 0:
@@ -391,6 +400,10 @@ def print_assumptions(modname, names, tag):
                     if mm and not ln.startswith("Axioms") and mm.group(1) not in ("Axioms",):
                         ax.append(mm.group(1))
                 res[m.group(1)] = ax
+        if combined and "ALL" in res:
+            allax = res.pop("ALL")
+            for nm in names:
+                res[nm] = list(allax)
         for nm in names:
             res.setdefault(nm, ["<error> no output"])
     for ext in (".v", ".vo", ".vok", ".vos", ".glob"):
